@@ -612,6 +612,15 @@ func (p *pinner) isPinnedWithType(ctx context.Context, c cid.Cid, mode ipfspinne
 	case ipfspinner.Internal:
 		return "", false, nil
 	case ipfspinner.Indirect:
+		// A recursively pinned CID is not indirect, even if it is also
+		// referenced by another recursive pin (see checkIndirectPins).
+		has, err := p.cidRIndex.HasAny(ctx, cidKey)
+		if err != nil {
+			return "", false, err
+		}
+		if has {
+			return "", false, nil
+		}
 	case ipfspinner.Any:
 		has, err := p.cidRIndex.HasAny(ctx, cidKey)
 		if err != nil {
